@@ -7,6 +7,7 @@
 
 ; needs: rmul
 (assert (forall ((x Real) (y Real)) (! (= (u.rmul x y) (u.rmul y x)) :pattern ((u.rmul x y)))))
+(assert (forall ((x Real) (y Real)) (! (=> (= x 0.0) (= (u.rmul x y) 0.0)) :pattern ((u.rmul x y)))))
 
 ; needs: exp
 (assert (forall ((x Real)) (! (> (u.exp x) 0.0) :pattern ((u.exp x)))))
